@@ -324,9 +324,9 @@ Definition side_ok (op : gop) (child : hs) (k : nat) : bool :=
 Definition lk_ok (op : gop) (child : hs) (lk : link) : bool :=
   match lk with LStale => true | LKeep k => side_ok op child k end.
 
-(* invariant of every HalfSpace the operators can produce: a cell is only used directly under a
-   complement (written #n); a kept link has the parentheses that the precedence of its parent needs *)
-Fixpoint inv (h : hs) : bool :=
+(* what _ensure_has_nodes establishes: a cell is only used directly under a complement (written #n); a kept link
+   has the parentheses that the precedence of its parent needs *)
+Fixpoint linked_ok (h : hs) : bool :=
   match h with
   | HUnit cell _ _ => negb cell
   | HCompl l nd =>
@@ -337,18 +337,36 @@ Fixpoint inv (h : hs) : bool :=
           | Some (lp, lk) => andb (negb lp) (match lk with LStale => true | LKeep k => Nat.eqb k 0 end)
           end
       | _ =>
-          andb (inv l)
+          andb (linked_ok l)
                (match nd with
                 | None => true
                 | Some (lp, lk) => match lk with LStale => true | LKeep k => orb lp (Nat.leb 1 k) end
                 end)
       end
   | HBin op l r nd =>
-      andb (andb (inv l) (inv r))
+      andb (andb (linked_ok l) (linked_ok r))
            (match nd with
             | None => true
             | Some (ll, rl) => andb (lk_ok op l ll) (lk_ok op r rl)
             end)
+  end.
+
+(* the invariant of every HalfSpace the operators can produce: a cell is only used directly under a complement,
+   and the syntax node of such a complement is the bare "#n".  Nothing is required of the other links:
+   _child_node re-establishes the parentheses whenever a side has none of its own *)
+Fixpoint inv (h : hs) : bool :=
+  match h with
+  | HUnit cell _ _ => negb cell
+  | HCompl l nd =>
+      match l with
+      | HUnit true _ _ =>
+          match nd with
+          | None => true
+          | Some (lp, lk) => andb (negb lp) (match lk with LKeep (S _) => false | _ => true end)
+          end
+      | _ => inv l
+      end
+  | HBin _ l r _ => andb (inv l) (inv r)
   end.
 
 (* every node attached, every link kept: the state after _ensure_has_nodes *)
@@ -392,25 +410,17 @@ Proof.
   - destruct nd as [[ll rl]|]; simpl; rewrite IHh1, IHh2; reflexivity.
 Qed.
 
-Lemma ensure_attached_id : forall h, attached h = true -> ensure_has_nodes h = h.
+(* whatever the side's link was, _child_node gives it the parentheses its parent needs *)
+Lemma child_node_side_ok : forall op c lk, side_ok op c (child_node (PBin op) c lk) = true.
 Proof.
-  induction h; simpl; intros H.
-  - reflexivity.
-  - destruct nd as [[lp [|k]]|]; try discriminate. rewrite IHh by assumption. reflexivity.
-  - destruct nd as [[[|kl] [|kr]]|]; try discriminate.
-    apply andb_true_iff in H. destruct H as [H1 H2].
-    rewrite IHh1, IHh2 by assumption. reflexivity.
+  intros op c lk.
+  assert (Hc : side_ok op c (child_node (PBin op) c LStale) = true).
+  { destruct op; simpl; [|reflexivity]. destruct c as [cl p n|l nd|[] l r nd]; reflexivity. }
+  destruct lk as [|[|k]]; try exact Hc.
+  destruct op; simpl; [apply orb_true_r | reflexivity].
 Qed.
 
-Lemma child_node_side_ok : forall op c lk,
-  lk_ok op c lk = true -> side_ok op c (child_node (PBin op) c lk) = true.
-Proof.
-  intros op c [|k] H; simpl in *; [|exact H].
-  destruct op; simpl; [|reflexivity].
-  destruct c as [cl p n|l nd|[] l r nd]; simpl; reflexivity.
-Qed.
-
-Lemma inv_unit_false : forall p n, inv (HUnit true p n) = false.
+Lemma linked_unit_false : forall p n, linked_ok (HUnit true p n) = false.
 Proof. reflexivity. Qed.
 
 Definition compl_nd_ok (nd : option (bool * link)) : bool :=
@@ -419,11 +429,15 @@ Definition compl_nd_ok (nd : option (bool * link)) : bool :=
   | Some (lp, lk) => match lk with LStale => true | LKeep k => orb lp (Nat.leb 1 k) end
   end.
 
-Lemma inv_compl_nonunit : forall l nd, is_cell_unit l = false ->
-  inv (HCompl l nd) = andb (inv l) (compl_nd_ok nd).
+Lemma linked_compl_nonunit : forall l nd, is_cell_unit l = false ->
+  linked_ok (HCompl l nd) = andb (linked_ok l) (compl_nd_ok nd).
 Proof. intros l nd H; destruct l as [[] p n| |]; try discriminate; reflexivity. Qed.
 
-Lemma ensure_inv : forall h, inv h = true -> inv (ensure_has_nodes h) = true.
+Lemma inv_compl_nonunit : forall l nd, is_cell_unit l = false -> inv (HCompl l nd) = inv l.
+Proof. intros l nd H; destruct l as [[] p n| |]; try discriminate; reflexivity. Qed.
+
+(* _ensure_has_nodes turns the invariant into the linked state that format needs *)
+Lemma ensure_linked : forall h, inv h = true -> linked_ok (ensure_has_nodes h) = true.
 Proof.
   induction h; intros H.
   - exact H.
@@ -432,29 +446,21 @@ Proof.
       destruct h as [[] p n| |]; try discriminate.
       cbn [ensure_has_nodes]. destruct nd as [[lp lk]|]; [|reflexivity].
       simpl in H. apply andb_true_iff in H. destruct H as [Hlp Hk].
-      destruct lp; [discriminate|]. destruct lk; simpl; [reflexivity|exact Hk].
-    + rewrite inv_compl_nonunit in H by exact Hcu.
-      apply andb_true_iff in H. destruct H as [Hc Hnd]. specialize (IHh Hc).
+      destruct lp; [discriminate|]. destruct lk as [|[|k]]; try discriminate; reflexivity.
+    + rewrite inv_compl_nonunit in H by exact Hcu. specialize (IHh H).
       cbn [ensure_has_nodes].
       destruct nd as [[lp lk]|].
-      * rewrite inv_compl_nonunit by (rewrite ensure_is_cell_unit; exact Hcu).
+      * rewrite linked_compl_nonunit by (rewrite ensure_is_cell_unit; exact Hcu).
         rewrite IHh. cbn [andb compl_nd_ok].
-        destruct lk; [|exact Hnd]. cbn [child_node].
-        rewrite ensure_is_cell_unit, Hcu, andb_false_r. destruct lp; reflexivity.
-      * rewrite inv_compl_nonunit by (rewrite ensure_is_cell_unit; exact Hcu).
+        destruct lk as [|[|k]]; cbn [child_node];
+          rewrite ?ensure_is_cell_unit, ?Hcu, ?andb_false_r; destruct lp; reflexivity.
+      * rewrite linked_compl_nonunit by (rewrite ensure_is_cell_unit; exact Hcu).
         rewrite IHh. rewrite ensure_is_cell_unit, Hcu. reflexivity.
   - cbn [ensure_has_nodes inv] in *.
-    apply andb_true_iff in H. destruct H as [H Hnd].
     apply andb_true_iff in H. destruct H as [H1 H2].
     specialize (IHh1 H1). specialize (IHh2 H2).
-    assert (Hside : forall c lk, lk_ok op c lk = true -> lk_ok op (ensure_has_nodes c) lk = true).
-    { intros c [|k] Hk; [reflexivity|]. unfold lk_ok, side_ok in *. destruct op; [|reflexivity].
-      rewrite ensure_is_union. exact Hk. }
-    destruct nd as [[ll rl]|]; cbn [inv]; rewrite IHh1, IHh2; cbn [andb lk_ok].
-    + apply andb_true_iff in Hnd. destruct Hnd as [Hl Hr].
-      rewrite (child_node_side_ok op _ ll (Hside _ _ Hl)), (child_node_side_ok op _ rl (Hside _ _ Hr)).
-      reflexivity.
-    + rewrite !child_node_side_ok; reflexivity.
+    destruct nd as [[ll rl]|]; cbn [linked_ok]; rewrite IHh1, IHh2; cbn [andb lk_ok];
+      rewrite !child_node_side_ok; reflexivity.
 Qed.
 
 Definition hlvl (h : hs) : lvl :=
@@ -483,9 +489,9 @@ Proof.
   intros c k e H. eapply GD_to_E. apply GD_wrapk. exact H.
 Qed.
 
-(* the key lemma: what format prints for a linked tree that satisfies the invariant parses, at the level
-   of its top operator, to an expression equivalent to the tree's meaning *)
-Lemma format_correct : forall h, attached h = true -> inv h = true ->
+(* the key lemma: what format prints for a linked tree parses, at the level of its top operator, to an
+   expression equivalent to the tree's meaning *)
+Lemma format_correct : forall h, attached h = true -> linked_ok h = true ->
   exists e, GD (hlvl h) (format_hs h) e /\ beq e (sem_hs h).
 Proof.
   induction h; intros Ha Hi.
@@ -498,7 +504,7 @@ Proof.
       simpl in Hi. apply andb_true_iff in Hi. destruct Hi as [Hlp Hk].
       destruct lp; simpl in Hlp; [discriminate|]. apply Nat.eqb_eq in Hk. subst k.
       simpl. exists (BCompl n). split; [apply GD_cell | apply beq_sym, beq_notnot].
-    + rewrite inv_compl_nonunit in Hi by exact Hcu.
+    + rewrite linked_compl_nonunit in Hi by exact Hcu.
       apply andb_true_iff in Hi. destruct Hi as [Hc Hk]. cbn [compl_nd_ok] in Hk.
       destruct (IHh Ha Hc) as (e & He & Hq).
       exists (BNot e). split; [|simpl; apply beq_not; exact Hq].
@@ -516,7 +522,7 @@ Proof.
         apply GD_not. apply side_expr. exact He.
   - destruct nd as [[[|kl] [|kr]]|]; try discriminate.
     cbn [attached] in Ha. apply andb_true_iff in Ha. destruct Ha as [Ha1 Ha2].
-    cbn [inv] in Hi. apply andb_true_iff in Hi. destruct Hi as [Hi Hnd].
+    cbn [linked_ok] in Hi. apply andb_true_iff in Hi. destruct Hi as [Hi Hnd].
     apply andb_true_iff in Hi. destruct Hi as [Hi1 Hi2].
     apply andb_true_iff in Hnd. destruct Hnd as [Hl Hr]. cbn [lk_ok] in Hl, Hr.
     destruct (IHh1 Ha1 Hi1) as (e1 & He1 & Hq1).
@@ -534,7 +540,7 @@ Theorem write_correct : forall h, inv h = true ->
   exists e, GDenotes (written_tokens h) e /\ beq e (sem_hs h).
 Proof.
   intros h Hi. unfold written_tokens, update_values, GDenotes.
-  destruct (format_correct (ensure_has_nodes h) (ensure_attached h) (ensure_inv h Hi)) as (e & He & Hq).
+  destruct (format_correct (ensure_has_nodes h) (ensure_attached h) (ensure_linked h Hi)) as (e & He & Hq).
   exists e. split; [eapply GD_to_E; exact He | rewrite <- ensure_sem; exact Hq].
 Qed.
 
@@ -543,11 +549,11 @@ Theorem cell_write_correct : forall c, inv (geom c) = true ->
   exists e, GDenotes (cell_tokens c) e /\ beq e (sem_hs (geom c)).
 Proof.
   intros c Hi. unfold cell_tokens, cell_update, update_values, GDenotes. cbn [geom outer link_k].
-  destruct (format_correct (ensure_has_nodes (geom c)) (ensure_attached _) (ensure_inv _ Hi)) as (e & He & Hq).
+  destruct (format_correct (ensure_has_nodes (geom c)) (ensure_attached _) (ensure_linked _ Hi)) as (e & He & Hq).
   exists e. split; [apply side_expr; exact He | rewrite <- ensure_sem; exact Hq].
 Qed.
 
-(* ------------------------------------------------------------------ the invariant is kept by everything but the operator setter *)
+(* ------------------------------------------------------------------ the invariant is kept by every operation *)
 Lemma inv_surf : forall pos n, inv (HUnit false pos n) = true.
 Proof. reflexivity. Qed.
 Lemma inv_cell_compl : forall n, inv (cell_compl n) = true.
@@ -560,22 +566,17 @@ Lemma inv_not_cell_unit : forall h, inv h = true -> is_cell_unit h = false.
 Proof. intros [[] p n| |] H; try reflexivity; discriminate. Qed.
 Lemma inv_not : forall a, inv a = true -> inv (hs_not a) = true.
 Proof.
-  intros a Ha. unfold hs_not. rewrite inv_compl_nonunit by (apply inv_not_cell_unit; exact Ha).
-  rewrite Ha; reflexivity.
+  intros a Ha. unfold hs_not. rewrite inv_compl_nonunit by (apply inv_not_cell_unit; exact Ha). exact Ha.
 Qed.
 
 Lemma inv_compl_drop_node : forall l nd, inv (HCompl l nd) = true -> inv (HCompl l None) = true.
 Proof.
   intros l nd H. destruct (is_cell_unit l) eqn:Hcu.
   - destruct l as [[] p n| |]; try discriminate; reflexivity.
-  - rewrite inv_compl_nonunit in * by exact Hcu.
-    apply andb_true_iff in H. destruct H as [H _]. rewrite H; reflexivity.
+  - rewrite inv_compl_nonunit in * by exact Hcu. exact H.
 Qed.
 
-Lemma inv_bin : forall op a b nd,
-  inv (HBin op a b nd) =
-  andb (andb (inv a) (inv b))
-       (match nd with None => true | Some (ll, rl) => andb (lk_ok op a ll) (lk_ok op b rl) end).
+Lemma inv_bin : forall op a b nd, inv (HBin op a b nd) = andb (inv a) (inv b).
 Proof. reflexivity. Qed.
 
 Lemma inv_iop : forall op h o, inv h = true -> inv o = true -> inv (fst (hs_iop op h o)) = true.
@@ -584,40 +585,33 @@ Proof.
   - cbn [hs_iop fst]. rewrite inv_bin, Hh, Ho. reflexivity.
   - cbn [hs_iop fst]. rewrite inv_bin.
     rewrite (inv_compl_drop_node _ _ Hh), Ho. reflexivity.
-  - rewrite inv_bin in Hh. apply andb_true_iff in Hh. destruct Hh as [Hh Hnd].
-    apply andb_true_iff in Hh. destruct Hh as [H1 H2].
+  - rewrite inv_bin in Hh. apply andb_true_iff in Hh. destruct Hh as [H1 H2].
     destruct (is_unit h2) eqn:Hu.
     + destruct h2 as [c p n| |]; try discriminate. rewrite iop_bin_unit. cbn [fst].
-      rewrite !inv_bin. rewrite H1, H2, Ho. cbn [andb].
-      destruct nd as [[ll rl]|]; [|reflexivity]. cbn [stale_right lk_ok].
-      apply andb_true_iff in Hnd. destruct Hnd as [Hl _]. rewrite Hl. reflexivity.
+      rewrite !inv_bin. rewrite H1, H2, Ho. reflexivity.
     + rewrite iop_bin_nonunit by exact Hu. cbn [fst]. rewrite inv_bin.
-      rewrite H1, (IHh2 H2 Ho). cbn [andb].
-      destruct nd as [[ll rl]|]; [|destruct (snd (hs_iop op h2 o)); reflexivity].
-      apply andb_true_iff in Hnd. destruct Hnd as [Hl Hr].
-      destruct (snd (hs_iop op h2 o)) eqn:Hs; cbn [stale_right lk_ok]; rewrite Hl; [|reflexivity].
-      destruct rl; [reflexivity|]. cbn [lk_ok andb] in *. unfold side_ok in *.
-      destruct op0; [|reflexivity]. rewrite iop_same_shape by exact Hs. exact Hr.
+      rewrite H1, (IHh2 H2 Ho). reflexivity.
 Qed.
 
 Lemma inv_set_left : forall a b h, inv a = true -> inv b = true -> hs_set_left a b = Some h -> inv h = true.
 Proof.
   intros a b h Ha Hb H. destruct a as [c p n|l nd|op l r nd]; simpl in H; inversion H; subst; clear H.
-  - rewrite inv_compl_nonunit by (apply inv_not_cell_unit; exact Hb).
-    rewrite Hb. destruct nd as [[lp lk]|]; reflexivity.
-  - cbn [inv] in *. apply andb_true_iff in Ha. destruct Ha as [Ha Hnd].
-    apply andb_true_iff in Ha. destruct Ha as [_ H2]. rewrite Hb, H2. cbn [andb].
-    destruct nd as [[ll rl]|]; [|reflexivity]. cbn [stale_left lk_ok].
-    apply andb_true_iff in Hnd. destruct Hnd as [_ Hr]. exact Hr.
+  - rewrite inv_compl_nonunit by (apply inv_not_cell_unit; exact Hb). exact Hb.
+  - rewrite inv_bin in *. apply andb_true_iff in Ha. destruct Ha as [_ H2]. rewrite Hb, H2. reflexivity.
 Qed.
 
 Lemma inv_set_right : forall a b h, inv a = true -> inv b = true -> hs_set_right a b = Some h -> inv h = true.
 Proof.
   intros a b h Ha Hb H. destruct a as [c p n|l nd|op l r nd]; simpl in H; inversion H; subst; clear H.
-  cbn [inv] in *. apply andb_true_iff in Ha. destruct Ha as [Ha Hnd].
-  apply andb_true_iff in Ha. destruct Ha as [H1 _]. rewrite Hb, H1. cbn [andb].
-  destruct nd as [[ll rl]|]; [|reflexivity]. cbn [stale_right lk_ok].
-  apply andb_true_iff in Hnd. destruct Hnd as [Hl _]. rewrite Hl. reflexivity.
+  rewrite inv_bin in *. apply andb_true_iff in Ha. destruct Ha as [H1 _]. rewrite Hb, H1. reflexivity.
+Qed.
+
+(* the operator setter (INTERSECTION <-> UNION) keeps it as well: a child that needs parentheses under the new
+   operator gets them from _child_node at the next write *)
+Lemma inv_set_op : forall a op h, inv a = true -> hs_set_op a op = Some h -> inv h = true.
+Proof.
+  intros a op h Ha H. destruct a as [c p n|l nd|op' l r nd]; simpl in H; inversion H; subst; clear H.
+  rewrite inv_bin in *. exact Ha.
 Qed.
 
 (* parsed trees: an intersection never has an unparenthesised union below it *)
@@ -642,25 +636,41 @@ Proof.
   - apply orb_true_iff. right. apply Nat.leb_le. exact H.
 Qed.
 
-Lemma inv_parsed : forall l ts t, Derives l ts t -> inv (parse_input_node t) = true.
+(* whatever tree is handed to parse_input_node *)
+Lemma inv_pin : forall t, inv (parse_input_node t) = true.
 Proof.
-  induction 1.
-  - reflexivity.
-  - exact IHDerives.
-  - reflexivity.
-  - change (parse_input_node (act_complement (act_parens t)))
-      with (HCompl (parse_input_node t) (Some (false, LKeep (S (paren_layers t))))).
-    rewrite inv_compl_nonunit by apply pin_not_cell_unit.
-    rewrite IHDerives. reflexivity.
-  - exact IHDerives.
-  - cbn [act_intersection parse_input_node inv]. rewrite IHDerives1, IHDerives2. cbn [andb lk_ok].
-    rewrite (derives_side_ok _ _ _ H) by discriminate.
-    rewrite (derives_side_ok _ _ _ H0) by discriminate. reflexivity.
-  - rewrite pin_expr_of_term. exact IHDerives.
-  - cbn [act_union parse_input_node inv]. rewrite IHDerives1, IHDerives2. reflexivity.
+  induction t; simpl; try reflexivity; try assumption.
+  - rewrite IHt1, IHt2. reflexivity.
+  - destruct t; try reflexivity;
+      (rewrite inv_compl_nonunit by apply pin_not_cell_unit; exact IHt).
 Qed.
 
-(* everything the API can build without the operator setter *)
+Lemma inv_parsed : forall l ts t, Derives l ts t -> inv (parse_input_node t) = true.
+Proof. intros. apply inv_pin. Qed.
+
+(* the state after a write satisfies the invariant again *)
+Lemma linked_attached_inv : forall h, linked_ok h = true -> attached h = true -> inv h = true.
+Proof.
+  induction h as [c p n|l IHl nd|op l IHl r IHr nd]; intros Hk Ha.
+  - exact Hk.
+  - destruct nd as [[lp [|k]]|]; try discriminate. cbn [attached] in Ha.
+    destruct (is_cell_unit l) eqn:Hcu.
+    + destruct l as [[] p n| |]; try discriminate.
+      simpl in Hk. apply andb_true_iff in Hk. destruct Hk as [Hlp Hk0]. apply Nat.eqb_eq in Hk0. subst k.
+      simpl. rewrite Hlp. reflexivity.
+    + rewrite linked_compl_nonunit in Hk by exact Hcu. apply andb_true_iff in Hk. destruct Hk as [Hk _].
+      rewrite inv_compl_nonunit by exact Hcu. apply IHl; assumption.
+  - destruct nd as [[[|kl] [|kr]]|]; try discriminate. cbn [attached] in Ha.
+    apply andb_true_iff in Ha. destruct Ha as [Ha1 Ha2].
+    cbn [linked_ok] in Hk. apply andb_true_iff in Hk. destruct Hk as [Hk _].
+    apply andb_true_iff in Hk. destruct Hk as [Hk1 Hk2].
+    rewrite inv_bin, (IHl Hk1 Ha1), (IHr Hk2 Ha2). reflexivity.
+Qed.
+
+Lemma ensure_inv : forall h, inv h = true -> inv (ensure_has_nodes h) = true.
+Proof. intros h H. apply linked_attached_inv; [apply ensure_linked; exact H | apply ensure_attached]. Qed.
+
+(* everything the API can build *)
 Inductive reachable : hs -> Prop :=
 | R_surf : forall pos n, reachable (HUnit false pos n)                 (* +s, -s *)
 | R_cell : forall n, reachable (cell_compl n)                         (* ~c *)
@@ -672,6 +682,7 @@ Inductive reachable : hs -> Prop :=
 | R_ior : forall a b, reachable a -> reachable b -> reachable (fst (hs_iop OUnion a b))
 | R_set_left : forall a b h, reachable a -> reachable b -> hs_set_left a b = Some h -> reachable h
 | R_set_right : forall a b h, reachable a -> reachable b -> hs_set_right a b = Some h -> reachable h
+| R_set_op : forall a op h, reachable a -> hs_set_op a op = Some h -> reachable h   (* .operator = INTERSECTION / UNION *)
 | R_written : forall a, reachable a -> reachable (update_values a).   (* written once, then used again *)
 
 Lemma reachable_inv : forall h, reachable h -> inv h = true.
@@ -679,7 +690,7 @@ Proof.
   induction 1.
   - apply inv_surf.
   - apply inv_cell_compl.
-  - eapply inv_parsed; eauto.
+  - apply inv_pin.
   - apply inv_and; assumption.
   - apply inv_or; assumption.
   - apply inv_not; assumption.
@@ -687,6 +698,7 @@ Proof.
   - apply inv_iop; assumption.
   - eapply (inv_set_left a b); eauto.
   - eapply (inv_set_right a b); eauto.
+  - eapply inv_set_op; eauto.
   - apply ensure_inv; assumption.
 Qed.
 
@@ -718,9 +730,9 @@ Proof.
       * destruct h as [[] p n| |]; try discriminate; reflexivity.
       * rewrite inv_compl_nonunit by exact Hcu.
         assert (Hs : scratch h = true) by (destruct h as [[] ? ?| |]; try discriminate; exact H).
-        rewrite (IHh Hs). reflexivity.
+        exact (IHh Hs).
   - destruct nd; [discriminate|]. simpl in H. apply andb_true_iff in H. destruct H as [H1 H2].
-    cbn [inv]. rewrite (IHh1 H1), (IHh2 H2). reflexivity.
+    rewrite inv_bin, (IHh1 H1), (IHh2 H2). reflexivity.
 Qed.
 
 Theorem write_scratch : forall h, scratch h = true ->
@@ -733,6 +745,35 @@ Proof.
   induction t; simpl; try reflexivity; try assumption.
   - rewrite IHt1, IHt2. reflexivity.
   - destruct t; simpl in *; try reflexivity; assumption.
+Qed.
+
+(* a kept side that already satisfies the precedence of its parent is left alone *)
+Lemma child_node_keep : forall op c k, side_ok op c k = true -> child_node (PBin op) c (LKeep k) = k.
+Proof.
+  intros op c [|k] H; [|reflexivity]. cbn [child_node].
+  destruct (is_unit c) eqn:Hu; [reflexivity|]. cbn [andb].
+  destruct op; [|reflexivity]. unfold side_ok in H. rewrite orb_false_r in H.
+  apply negb_true_iff in H. rewrite H. reflexivity.
+Qed.
+
+(* _ensure_has_nodes does not touch the links of an as-parsed geometry *)
+Lemma ensure_parsed_id : forall l ts t, Derives l ts t ->
+  ensure_has_nodes (parse_input_node t) = parse_input_node t.
+Proof.
+  induction 1.
+  - reflexivity.
+  - exact IHDerives.
+  - reflexivity.
+  - change (parse_input_node (act_complement (act_parens t)))
+      with (HCompl (parse_input_node t) (Some (false, LKeep (S (paren_layers t))))).
+    cbn [ensure_has_nodes child_node]. rewrite IHDerives. reflexivity.
+  - exact IHDerives.
+  - cbn [act_intersection parse_input_node ensure_has_nodes]. rewrite IHDerives1, IHDerives2.
+    rewrite !child_node_keep; [reflexivity | |];
+      eapply derives_side_ok; eauto; discriminate.
+  - rewrite pin_expr_of_term. exact IHDerives.
+  - cbn [act_union parse_input_node ensure_has_nodes]. rewrite IHDerives1, IHDerives2.
+    rewrite !child_node_keep by reflexivity. reflexivity.
 Qed.
 
 Lemma format_compl_layers : forall h k,
@@ -760,7 +801,7 @@ Qed.
 Theorem unedited_exact : forall ts t, Derives LE ts t -> cell_tokens (parse_cell t) = ts.
 Proof.
   intros ts t D. unfold cell_tokens, cell_update, parse_cell, update_values. cbn [geom outer link_k].
-  rewrite ensure_attached_id by apply pin_attached.
+  rewrite (ensure_parsed_id _ _ _ D).
   eapply derives_format_back; eauto.
 Qed.
 
@@ -886,58 +927,30 @@ Proof.
 Qed.
 
 (* ------------------------------------------------------------------ the operator setter *)
-Lemma inv_set_op_union : forall a h, inv a = true -> hs_set_op a OUnion = Some h -> inv h = true.
-Proof.
-  intros a h Ha H. destruct a as [c p n|l nd|op l r nd]; simpl in H; inversion H; subst; clear H.
-  rewrite inv_bin in *. apply andb_true_iff in Ha. destruct Ha as [Ha _]. rewrite Ha.
-  destruct nd as [[[|kl] [|kr]]|]; reflexivity.
-Qed.
-
-(* setting INTERSECTION keeps the invariant exactly when no kept child is an unparenthesised union *)
-Lemma inv_set_op_inter : forall a h, inv a = true -> hs_set_op a OInter = Some h ->
-  inv h = match a with
-          | HBin _ l r (Some (ll, rl)) => andb (lk_ok OInter l ll) (lk_ok OInter r rl)
-          | _ => true
-          end.
-Proof.
-  intros a h Ha H. destruct a as [c p n|l nd|op l r nd]; simpl in H; inversion H; subst; clear H.
-  rewrite inv_bin in *. apply andb_true_iff in Ha. destruct Ha as [Ha _]. rewrite Ha.
-  destruct nd as [[ll rl]|]; reflexivity.
-Qed.
-
 Definition w123 : list gtok := [TLeaf true 1; TColon; TLeaf true 2; TColon; TLeaf true 3]%Z.
 Definition env1 (a : atom) : bool := match a with ASurf 1%Z => true | _ => false end.
 
-(* "1:2:3" is read, the operator of the top node is set to INTERSECTION, the cell is written:
-   the text is "1 : 2 3", which MCNP reads as 1 : (2 3), while the object is (1 : 2) 3 *)
-Lemma write_setop_refuted :
-  exists ts t h, Derives LE ts t /\ hs_set_op (parse_input_node t) OInter = Some h /\
-    forall e, GDenotes (written_tokens h) e -> ~ beq e (sem_hs h).
+(* "1:2:3" is read, the operator of the top node is set to INTERSECTION, the cell is written: the object is
+   (1 : 2) 3 and the text is "(1 : 2) 3" (before the repair of _child_node it was "1 : 2 3") *)
+Lemma ex_setop :
+  exists t h, Derives LE w123 t /\ hs_set_op (parse_input_node t) OInter = Some h /\
+    sem_hs h = BAnd (BOr (BSurf true 1) (BSurf true 2)) (BSurf true 3) /\
+    written_tokens h = [TLParen; TLeaf true 1; TColon; TLeaf true 2; TRParen; TLeaf true 3]%Z.
 Proof.
   destruct (tparse w123) as [t|] eqn:E; [|discriminate E].
   pose proof (tparse_sound _ _ E) as D.
   vm_compute in E. inversion E; subst t; clear E.
-  eexists w123, _, _. split; [exact D|]. split; [reflexivity|].
-  intros e He Hq.
-  assert (Hg : GDenotes [TLeaf true 1; TColon; TLeaf true 2; TLeaf true 3]%Z
-                 (BOr (BSurf true 1) (BAnd (BSurf true 2) (BSurf true 3)))%Z).
-  { apply gparse_sound. vm_compute. reflexivity. }
-  assert (e = BOr (BSurf true 1) (BAnd (BSurf true 2) (BSurf true 3)))%Z.
-  { eapply GD_unique; [exact He | exact Hg]. }
-  subst e. specialize (Hq env1). vm_compute in Hq. discriminate Hq.
+  eexists _, _. split; [exact D|]. repeat split.
 Qed.
 
 (* ------------------------------------------------------------------ operator programs (the wire entry) *)
-Definition instr_ok (i : instr) : bool :=
-  match i with ISetOp OInter => false | _ => true end.
-
 Definition stack_inv (st : stack) : Prop := Forall (fun x => inv (fst x) = true) st.
 
 Lemma step_inv : forall base i st st',
-  (forall b, base = Some b -> inv b = true) -> instr_ok i = true ->
+  (forall b, base = Some b -> inv b = true) ->
   stack_inv st -> step base i st = inr st' -> stack_inv st'.
 Proof.
-  unfold stack_inv. intros base i st st' Hb Hi Hst H.
+  unfold stack_inv. intros base i st st' Hb Hst H.
   destruct i.
   - simpl in H. inversion H; subst. constructor; [reflexivity | exact Hst].
   - simpl in H. inversion H; subst. constructor; [reflexivity | exact Hst].
@@ -970,41 +983,36 @@ Proof.
     destruct (hs_set_right a b) as [h|] eqn:E; inversion H; subst.
     inversion Hst as [|? ? Hb' Hr]; subst. inversion Hr as [|? ? Ha' Hr']; subst.
     constructor; [|exact Hr']. eapply (inv_set_right a b); eauto.
-  - destruct op; [discriminate Hi|].
-    destruct st as [|[a fa] r]; simpl in H; try discriminate.
-    destruct (hs_set_op a OUnion) as [h|] eqn:E; inversion H; subst.
+  - destruct st as [|[a fa] r]; simpl in H; try discriminate.
+    destruct (hs_set_op a op) as [h|] eqn:E; inversion H; subst.
     inversion Hst as [|? ? Ha' Hr]; subst.
-    constructor; [|exact Hr]. eapply inv_set_op_union; eauto.
+    constructor; [|exact Hr]. eapply inv_set_op; eauto.
   - destruct st as [|[a fa] r]; simpl in H; try discriminate. inversion H; subst.
     inversion Hst as [|? ? Ha' Hr]; subst.
     constructor; [apply ensure_inv; assumption | exact Hr].
 Qed.
 
 Lemma exec_inv : forall base p st st',
-  (forall b, base = Some b -> inv b = true) -> forallb instr_ok p = true ->
+  (forall b, base = Some b -> inv b = true) ->
   stack_inv st -> exec base p st = inr st' -> stack_inv st'.
 Proof.
-  intros base p. induction p as [|i p IH]; intros st st' Hb Hp Hst H; simpl in *.
+  intros base p. induction p as [|i p IH]; intros st st' Hb Hst H; simpl in *.
   - inversion H; subst. exact Hst.
-  - apply andb_true_iff in Hp. destruct Hp as [Hi Hp].
-    destruct (step base i st) as [e|st1] eqn:E; [discriminate|].
-    apply (IH st1 st' Hb Hp); [|exact H]. eapply step_inv; eauto.
+  - destruct (step base i st) as [e|st1] eqn:E; [discriminate|].
+    apply (IH st1 st' Hb); [|exact H]. eapply step_inv; eauto.
 Qed.
 
-(* every program without "operator = INTERSECTION", on any parsed cell or from scratch, writes a text that
-   means what the resulting object means *)
+(* every operator program, on any parsed cell or from scratch, writes a text that means what the resulting
+   object means *)
 Theorem run_case_correct : forall base p h toks,
-  match base with Some t => exists ts, Derives LE ts t | None => True end ->
-  forallb instr_ok p = true ->
   run_case base p = inr (h, toks) ->
   exists e, GDenotes toks e /\ beq e (sem_hs h).
 Proof.
-  intros base p h toks Hbase Hp H. unfold run_case in H.
+  intros base p h toks H. unfold run_case in H.
   destruct (exec (option_map parse_input_node base) p []) as [e|st] eqn:E; [discriminate|].
   assert (Hst : stack_inv st).
-  { eapply exec_inv; [| exact Hp | constructor | exact E].
-    intros b Hb. destruct base as [t|]; simpl in Hb; inversion Hb; subst.
-    destruct Hbase as [ts D]. eapply inv_parsed; eauto. }
+  { eapply exec_inv; [| constructor | exact E].
+    intros b Hb. destruct base as [t|]; simpl in Hb; inversion Hb; subst. apply inv_pin. }
   destruct st as [|[h0 same] [|x r]]; try discriminate. inversion H; subst.
   inversion Hst as [|? ? Hh _]; subst. cbn [fst] in Hh.
   apply (cell_write_correct (set_geometry _ h same)). exact Hh.
@@ -1684,30 +1692,3 @@ Proof.
   intros H. specialize (H env1). vm_compute in H. discriminate H.
 Qed.
 
-(* the operator setter: UNION is always safe, INTERSECTION exactly when no kept child is a bare union *)
-Definition setop_safe (a : hs) : bool :=
-  match a with
-  | HBin _ l r (Some (ll, rl)) => andb (lk_ok OInter l ll) (lk_ok OInter r rl)
-  | _ => true
-  end.
-
-Lemma write_setop_partial : forall a op h, inv a = true -> hs_set_op a op = Some h ->
-  (op = OInter -> setop_safe a = true) ->
-  exists e, GDenotes (written_tokens h) e /\ beq e (sem_hs h).
-Proof.
-  intros a op h Ha Hset Hsafe. apply write_correct.
-  destruct op.
-  - rewrite (inv_set_op_inter a h Ha Hset). exact (Hsafe eq_refl).
-  - eapply inv_set_op_union; eauto.
-Qed.
-
-Lemma ex_setop_safe :
-  exists ts t h, Derives LE ts t /\ hs_set_op (parse_input_node t) OInter = Some h /\
-                 setop_safe (parse_input_node t) = true /\ is_union (parse_input_node t) = true.
-Proof.
-  (* "(1:2):3" : the union on the left is in parentheses *)
-  destruct (tparse [TLParen; TLeaf true 1; TColon; TLeaf true 2; TRParen; TColon; TLeaf true 3]%Z) as [t|] eqn:E;
-    [|discriminate E].
-  pose proof (tparse_sound _ _ E) as D. vm_compute in E. inversion E; subst t; clear E.
-  eexists _, _, _. split; [exact D|]. repeat split.
-Qed.
